@@ -59,6 +59,11 @@ def Rd (α : Type) : Type := Bits → Except DecErr (α × Bits)
   | .error e => .error e
   | .ok (a, b') => f a b'
 @[inline] def Rd.fail (e : DecErr) : Rd α := fun _ => .error e
+/-- a computation that does not touch the bit buffer -/
+@[inline] def Rd.lift (x : Except DecErr α) : Rd α := fun b =>
+  match x with
+  | .error e => .error e
+  | .ok a => .ok (a, b)
 
 instance : Monad Rd where
   pure := Rd.pure
@@ -171,23 +176,40 @@ def getRemains (div : Nat) : List Nat → Rd (List Nat)
     let rest ← getRemains div qs
     pure (((q <<< div) + r) :: rest)
 
+/-- `WUNARY0` (12 bits) when the weight stream is enabled and compressed -/
+def readW0 (c : SliceCfg) (wEn : Bool) : Rd Nat :=
+  if wEn && !c.uncompressed then get 12 else pure 0
+
+/-- `ZUNARY`: quotients of the zero runs of this chunk and the carry -/
+def readZ (c : SliceCfg) (zEn : Bool) (s : Chunk) : Rd (List Nat × Nat) :=
+  if zEn then (get c.zUnaryLen).bind fun zu => pure (zUnaryLoop zu c.zUnaryLen 0 s.zCarry [])
+  else pure ([], s.zCarry)
+
+/-- `WUNARY1`: quotients of the weights of this chunk and the carry -/
+def readW1 (c : SliceCfg) (wEn : Bool) (s : Chunk) (u0 : Nat) : Rd (List Nat × Nat) :=
+  if wEn then (get (popLow u0 c.maxSymbols 0)).bind fun u1 =>
+    pure (wUnaryLoop u0 c.trunc c.maxSymbols 0 u1 s.wCarry [])
+  else pure ([], s.wCarry)
+
+/-- `WREMAIN` of the previous chunk -/
+def readWRemain (c : SliceCfg) (s : Chunk) : Rd (List Nat) :=
+  if s.wPrevEn then getRemains c.wDiv (s.wPrevQ.take (c.nvalues - s.wPrevPos)) else pure []
+
+/-- `ZREMAIN` of the previous chunk -/
+def readZRemain (c : SliceCfg) (s : Chunk) : Rd (List Nat) :=
+  if s.zPrevEn then getRemains c.zDiv (s.zPrevQ.take (c.zNvalues - s.zPrevPos)) else pure []
+
 /-- one iteration of the chunk loop; `wEn`/`zEn` are the flow-control decisions of this iteration -/
 def chunkStep (c : SliceCfg) (wEn zEn : Bool) (s : Chunk) : Rd Chunk := do
-  let u0 ← if wEn && !c.uncompressed then get 12 else pure 0
-  let (zq, zCarry) ← (if zEn then do
-      let zu ← get c.zUnaryLen
-      pure (zUnaryLoop zu c.zUnaryLen 0 s.zCarry [])
-    else pure ([], s.zCarry) : Rd (List Nat × Nat))
-  let (wq, wCarry) ← (if wEn then do
-      let u1 ← get (popLow u0 c.maxSymbols 0)
-      pure (wUnaryLoop u0 c.trunc c.maxSymbols 0 u1 s.wCarry [])
-    else pure ([], s.wCarry) : Rd (List Nat × Nat))
-  let wr ← if s.wPrevEn then getRemains c.wDiv (s.wPrevQ.take (c.nvalues - s.wPrevPos)) else pure []
-  let zr ← if s.zPrevEn then getRemains c.zDiv (s.zPrevQ.take (c.zNvalues - s.zPrevPos)) else pure []
-  pure { wPos := s.wPos + wq.length, zPos := s.zPos + zq.length,
+  let u0 ← readW0 c wEn
+  let z ← readZ c zEn s
+  let w ← readW1 c wEn s u0
+  let wr ← readWRemain c s
+  let zr ← readZRemain c s
+  pure { wPos := s.wPos + w.1.length, zPos := s.zPos + z.1.length,
          wPrevPos := s.wPrevPos + wr.length, zPrevPos := s.zPrevPos + zr.length,
-         wCarry := wCarry, zCarry := zCarry, wPrevEn := wEn, zPrevEn := zEn,
-         wPrevQ := wq, zPrevQ := zq,
+         wCarry := w.2, zCarry := z.2, wPrevEn := wEn, zPrevEn := zEn,
+         wPrevQ := w.1, zPrevQ := z.1,
          wVals := wr.reverse ++ s.wVals, zVals := zr.reverse ++ s.zVals, nchunks := s.nchunks + 1 }
 
 /-- `balance<8 … && w_pos<nvalues` -/
@@ -297,14 +319,12 @@ def sliceBody (zdiv : Nat) (o : Outer) : Rd Outer := do
   let s ← chunkLoop c fuel {}
   let ws := s.wVals.reverse
   let zs := s.zVals.reverse
-  match emitSlice pal useZ newPal ws zs o.out with
-  | .error e => Rd.fail e
-  | .ok out =>
-    let info : SliceInfo := { zdiv := zdiv, nvalues := nvalues, wdiv := wdiv, trunc := trunc, newPal := newPal,
-                              palsize := pal.palsize, palbits := pal.palbits, directOffset := pal.directOffset,
-                              nchunks := s.nchunks, zeros := out.length - o.out.length - nvalues,
-                              direct := (ws.filter (· ≥ pal.palsize)).length }
-    pure { o with first := false, zPrevDiv := zdiv, pal := pal, out := out, infos := info :: o.infos }
+  let out ← Rd.lift (emitSlice pal useZ newPal ws zs o.out)
+  let info : SliceInfo := { zdiv := zdiv, nvalues := nvalues, wdiv := wdiv, trunc := trunc, newPal := newPal,
+                            palsize := pal.palsize, palbits := pal.palbits, directOffset := pal.directOffset,
+                            nchunks := s.nchunks, zeros := out.length - o.out.length - nvalues,
+                            direct := (ws.filter (· ≥ pal.palsize)).length }
+  pure { o with first := false, zPrevDiv := zdiv, pal := pal, out := out, infos := info :: o.infos }
 
 /-- the slice loop `do { … } while(*outbuf)` with the end-of-stream `while` folded in -/
 def sliceLoop : Nat → Outer → Rd Outer
@@ -316,12 +336,14 @@ def sliceLoop : Nat → Outer → Rd Outer
       let pos ← bitPos
       let _ ← get ((8 - pos % 8) % 8)
       let o := { o with first := true, eos := o.eos + 1 }
-      if (← atEnd) then pure o else sliceLoop f o
-    else if (← atEnd) then pure o
-    else do
-      let o ← sliceBody zdiv o
-      let pos ← bitPos
-      sliceLoop f { o with sliceEnd := pos }
+      let e ← atEnd
+      if e then pure o else sliceLoop f o
+    else
+      let e ← atEnd
+      if e then pure o else
+        let o ← sliceBody zdiv o
+        let pos ← bitPos
+        sliceLoop f { o with sliceEnd := pos }
 
 structure Decoded where
   weights : List Int
